@@ -844,7 +844,12 @@ impl<'a> Expander<'a> {
                             if modifier.is_some() {
                                 return Err("modifier on constant".into());
                             }
-                            paren(v)
+                            // (a literal needs no parentheses - and as a whole operand they would turn `lda c` into
+                            // the indirect form `lda (…)`)
+                            match v {
+                                Expr::Num(_) => v,
+                                _ => paren(v),
+                            }
                         }
                         _ => e.clone(),
                     }
